@@ -129,6 +129,29 @@ Theorem C07_str2str_unloaded : forall (hash : bytes -> N) s,
   s2s_get hash new_s2s s = Ok None /\ s2s_len new_s2s = Ok 0.
 Proof. exact s2s_unloaded. Qed.
 
+(* FINDING (zero value).  The clause "a map that was never loaded reports every key absent rather
+   than failing", read for the zero value Str2Str{} (which LoadFromSlice explicitly supports by
+   creating the inner map and store on demand), is refuted: Get and Len dereference the nil inner
+   map until a load has been accepted.  What remains true: instances from NewStr2Str
+   (C07_str2str_unloaded), and the zero value from its first accepted load on. *)
+Definition C07_str2str_zero_value_statement : Prop :=
+  forall (hash : bytes -> N) s, s2s_get hash zero_s2s s = Ok None /\ s2s_len zero_s2s = Ok 0.
+
+Theorem C07_str2str_zero_value_statement_refuted : ~ C07_str2str_zero_value_statement.
+Proof. exact (fun H => s2s_zero_unloaded_false (fun _ => 0) (H (fun _ => 0))). Qed.
+
+Theorem C07_str2str_zero_value_panics : forall (hash : bytes -> N) s,
+  s2s_get hash zero_s2s s = Panic 6%Z /\ s2s_len zero_s2s = Panic 6%Z.
+Proof. exact s2s_zero_unloaded_panics. Qed.
+
+Theorem C07_str2str_zero_value_partial : forall (hash : bytes -> N) sort, sort_ok sort ->
+  forall kk vv s,
+  length kk = length vv -> NoDup kk -> loadable kk -> Forall small vv ->
+  snd (s2s_load hash sort zero_s2s kk vv) = Ok tt /\
+  s2s_get hash (fst (s2s_load hash sort zero_s2s kk vv)) s = Ok (assoc kk vv s) /\
+  s2s_len (fst (s2s_load hash sort zero_s2s kk vv)) = Ok (len kk).
+Proof. exact s2s_zero_loaded. Qed.
+
 (* ---------------- non-vacuity ---------------- *)
 
 (* the hypothesis on sort is satisfiable: the insertion sort that executes the model *)
